@@ -4,6 +4,9 @@ package main
 // Arguments are explicit numbers and points so the same case line drives the model.
 
 import (
+	"fmt"
+
+	"github.com/bnb-chain/tss-lib/v2/common"
 	"math/big"
 
 	"github.com/bnb-chain/tss-lib/v2/crypto"
@@ -124,6 +127,14 @@ func init() {
 		out = append(out, pf.A, pf.B)
 		out = append(out, pf.Z[:]...)
 		return val.Ok(val.Ints(out))
+	})
+	// non_empty_multi [parts] n|none : the wire-validation helper behind every ValidateBasic
+	vc.Register("non_empty_multi", func(a []val.V) val.V {
+		bzs := val.AsBytesList(a[0])
+		if at, ok := a[1].(val.Atom); ok && string(at) == "none" {
+			return val.A(fmt.Sprint(common.NonEmptyMultiBytes(bzs)))
+		}
+		return val.A(fmt.Sprint(common.NonEmptyMultiBytes(bzs, int(val.AsInt64(a[1])))))
 	})
 	// dln_unmarshal_verify [wire parts] h1 h2 N : decode, then verify when the decoder accepts
 	vc.Register("dln_unmarshal_verify", func(a []val.V) val.V {
